@@ -1,20 +1,49 @@
 (* C07 — re-indexing over an existing index converges (idempotent replay).
-   The full statement is kept visible; it is decided on every run by the replay oracle on the
-   implementation and by the correspondence of Model/Replay.v; proved so far: the statement on a
-   concrete tape with a rename onto a deleted name (the history that failed before the fix), for every
-   prefix length, by evaluation (DESIGN.md §3 C07). *)
+   PROVED for every history of filesystem-level calls (any length, names, contents, clocks; plain configuration,
+   the root itself is never removed or renamed onto) and EVERY prefix length j: replaying the whole tape into the
+   index of its first j records reports no error and yields the visible index of a rebuild from scratch
+   (C07_replay_converges); a second replay changes nothing (C07_replay_idempotent); the rebuild itself succeeds
+   (C07_rebuild_succeeds).  Proofs/T07*.v (dirty-name argument over C01's tape invariants).
+   The broader formalisation C07_full_statement, which also admits operation-level Archive calls with caller-supplied
+   action records, is refuted (C07_forged_record_refuted): a hand-written "rename /b -> /a" record whose source does
+   not exist yet is outside the property's histories (the filesystem and operations.Move never write one).
+   Tie: Model/Replay.v evaluated against the implementation's rows; replay oracle on the implementation. *)
 From Coq Require Import String List NArith ZArith Bool.
 Import ListNotations.
-From STFS Require Import Str Db Tape Index Ops Fs Diff Prefix Replay.
+From STFS Require Import Str Db Tape Index Ops Fs Diff Norm Prefix Replay C01Fs2 C01Rows C07Stmt T07Replay T07Counter.
 Open Scope N_scope.
 
-Definition C07_full_statement : Prop :=
-  forall c h j, 0 < c_rs c ->
-    let t := tp (final c init_sys h) in
-    (j <= length (all_members t))%nat ->
-    res_ok (snd (rebuild c t)) = true ->
-    let '(p, r) := replay_into c t (prefix_index c t j) in
-    res_ok r = true /\ eqb_list eqb_row (visible p) (visible (fst (rebuild c t))) = true.
+Theorem C07_replay_converges : forall c e r j,
+  0 < c_rs c -> c_readonly c = false -> c_csuf c = [] -> c_esuf c = [] ->
+  forallb hb_ok ((CInitialize [slash], e) :: r) = true ->
+  forallb (fun ke => call_ok (fst ke)) r = true ->
+  forallb (fun ke => fs_call (fst ke)) r = true ->
+  let t := tp (final c init_sys ((CInitialize [slash], e) :: r)) in
+  let '(p, rr) := replay_into c t (prefix_index c t j) in
+  res_ok rr = true /\ eqb_list eqb_row (visible p) (visible (fst (rebuild c t))) = true.
+Proof. exact T07_replay_converges. Qed.
+
+Theorem C07_replay_idempotent : forall c e r j,
+  0 < c_rs c -> c_readonly c = false -> c_csuf c = [] -> c_esuf c = [] ->
+  forallb hb_ok ((CInitialize [slash], e) :: r) = true ->
+  forallb (fun ke => call_ok (fst ke)) r = true ->
+  forallb (fun ke => fs_call (fst ke)) r = true ->
+  let t := tp (final c init_sys ((CInitialize [slash], e) :: r)) in
+  let p1 := fst (replay_into c t (prefix_index c t j)) in
+  let '(p2, r2) := replay_into c t p1 in
+  res_ok r2 = true /\ eqb_list eqb_row (visible p2) (visible p1) = true.
+Proof. exact T07_replay_idempotent. Qed.
+
+Theorem C07_rebuild_succeeds : forall c e r,
+  0 < c_rs c -> c_readonly c = false -> c_csuf c = [] -> c_esuf c = [] ->
+  forallb hb_ok ((CInitialize [slash], e) :: r) = true ->
+  forallb (fun ke => call_ok (fst ke)) r = true ->
+  forallb (fun ke => fs_call (fst ke)) r = true ->
+  res_ok (snd (rebuild c (tp (final c init_sys ((CInitialize [slash], e) :: r))))) = true.
+Proof. exact T07_rebuild_ok. Qed.
+
+Theorem C07_forged_record_refuted : ~ C07_full_statement.
+Proof. exact counter_full_statement. Qed.
 
 Open Scope string_scope.
 Definition demo_cfg : cfg := {| c_rs := 3; c_csuf := []; c_esuf := []; c_readonly := false; c_uid := 0; c_gid := 0; c_uname := s "root"; c_gname := s "0" |}.
@@ -40,3 +69,5 @@ Example C07_demo_idempotent :
 Proof. vm_compute. reflexivity. Qed.
 
 Print Assumptions C07_demo.
+Print Assumptions C07_replay_converges.
+Print Assumptions C07_replay_idempotent.
